@@ -28,10 +28,12 @@ class Report:
         self.explanation = ""
         self.not_decided = ""
         self.configs = []
+        self.prefix = ""      # set while re-running the rules on a further feature configuration
         self.extra_assumptions = []
 
     # a rule instance that held
     def ok(self, rule, instance, site=None, detail=None):
+        instance = self.prefix + instance
         d = {"rule": rule, "instance": instance, "verdict": "holds"}
         if site:
             d["site"] = site
@@ -41,6 +43,7 @@ class Report:
 
     def violation(self, key, rule, msg, site=None):
         """key: stable, no line numbers."""
+        key = self.prefix + key
         full = "%s|%s|%s" % (self.pid, rule, key)
         d = {"key": full, "rule": rule, "msg": msg, "verdict": "VIOLATED"}
         if site:
